@@ -873,7 +873,8 @@ struct WCount { uint64_t nontrivial, strings; };
 // rebuild `comps` with addchar/valid/add on a fresh path; check after every add; then delete again.  Returns false after a violation.
 // cxxapi: use the C++ wrappers path::add / path::del instead of the C functions.
 // tail > 0: after the build consume `tail` elements with mpt_path_next, delete the last element and add a new one (walk, then rebuild the tail)
-static bool rebuild(Run &r, const WMode &m, const Key &comps, const std::string &sigcls, const std::string &what0, bool cxxapi = false, size_t tail = 0)
+// shared: while the characters of an element are pending, a copy of the path object (shares the buffer) adds a shorter element first
+static bool rebuild(Run &r, const WMode &m, const Key &comps, const std::string &sigcls, const std::string &what0, bool cxxapi = false, size_t tail = 0, bool shared = false)
 {
 	PathBox b(m.sep, m.assign, m.binary); mpt::path *p = b.p();
 	bool ok = true; std::string err; Key got;
@@ -888,6 +889,21 @@ static bool rebuild(Run &r, const WMode &m, const Key &comps, const std::string 
 		for (char ch : c) { if (LIB(mpt::mpt_path_addchar(p, (unsigned char) ch)) < 0) { fail(ADD, "refused", "mpt_path_addchar refused"); return; } valid = LIB(mpt::mpt_path_valid(p)); ++r.transitions; }
 		if (c.empty()) valid = LIB(mpt::mpt_path_valid(p));
 		if (valid != (int) c.size()) { fail(ADD, "wrong-components", fmt("mpt_path_valid reports %d pending bytes after adding %zu characters", valid, c.size())); return; }
+		if (shared && valid > 0) {
+			// the copy takes one byte less; this must not disturb the pending data / end character of the original
+			mpt::path *cp = LIB(new mpt::path(*p));
+			int rc = LIB(mpt::mpt_path_add(cp, valid - 1)); ++r.transitions;
+			Key ce(expect.begin(), expect.end() - 1); ce.push_back(c.substr(0, c.size() - 1));
+			Key cg; std::string cerr;
+			if (rc >= 0 && (!walk(*cp, cg, cerr) || cg != ce)) fail("mpt_path_add,shared-buffer", "wrong-components", "copy of the path after adding '" + abbrev(ce.back()) + "' walks as " + comps_str(cg) + ", expected " + comps_str(ce));
+			int ret2 = ok ? LIB(mpt::mpt_path_add(p, valid)) : -1; ++r.transitions;
+			Key og;
+			if (ok && ret2 < 0) fail("mpt_path_add,shared-buffer", "refused", fmt("adding to the original refused (%d) after its copy added an element", ret2));
+			else if (ok && (!walk(*p, og, cerr) || og != expect)) fail("mpt_path_add,shared-buffer", "wrong-components", "a copy of the path object added '" + abbrev(ce.back()) + "' first; the original then adds '" + abbrev(c) + "' and walks as " + comps_str(og) + ", expected " + comps_str(expect));
+			else if (ok && rc >= 0 && (!walk(*cp, cg, cerr) || cg != ce)) fail("mpt_path_add,shared-buffer", "wrong-components", "after the original added its element the copy walks as " + comps_str(cg) + ", expected " + comps_str(ce));
+			LIB((delete cp, 0));
+			return;
+		}
 		int ret = cxxapi ? LIB(p->add(valid)) : LIB(mpt::mpt_path_add(p, valid)); ++r.transitions;
 		if (ret < 0) { fail(ADD, "refused", fmt("adding element '%s' (%d pending bytes) refused (%d)", abbrev(c).c_str(), valid, ret)); return; }
 		if (!walk(*p, got, err)) fail(ADD, "wrong-components", "walking the rebuilt path: " + err);
@@ -895,6 +911,12 @@ static bool rebuild(Run &r, const WMode &m, const Key &comps, const std::string 
 	};
 	Key sofar;
 	for (size_t i = 0; i < comps.size() && ok; ++i) { sofar.push_back(comps[i]); add_elem(comps[i], sofar); }
+	if (shared) {
+		if (ok && asan_error()) fail("mpt_path_add,shared-buffer", "asan", "memory error");
+		LIB((mpt::mpt_path_fini(p), 0));
+		if (ok && ledger_live()) fail("mpt_path_add,shared-buffer", "leak", fmt("%zu block(s) still allocated after all path objects are gone", ledger_live()));
+		return ok;
+	}
 	if (ok && tail) {
 		// walk `tail` elements, then rebuild the end of the remaining path: delete its last element and add another one
 		for (size_t i = 0; i < tail; ++i) LIB(mpt::mpt_path_next(p));
@@ -981,7 +1003,7 @@ static void walk_case(Run &r, WCount &wc, const WMode &m, const std::string &s)
 		r.transitions += got.size() + 1;
 		if (got != comps) { fail("mpt_path_next", "wrong-components", "walks as " + comps_str(got) + ", separator-delimited components are " + comps_str(comps)); goto out; }
 		if (asan_error()) { fail("mpt_path_next", "asan", "memory error while walking"); goto out; }
-		if (n != (int) comps.size()) r.count("path_set:return!=components(not flagged)");
+		if (n != (int) comps.size()) { fail("mpt_path_set", "wrong-count", fmt("returns %d elements, walking visits %zu", n, comps.size())); goto out; }
 		if (p->len != partlen + 1) { fail("mpt_path_set", "wrong-components", fmt("path length %zu, expected %zu (elements + end character)", p->len, partlen + 1)); goto out; }
 		// --- next^k + last
 		for (size_t k = 0; k < comps.size(); ++k) {
@@ -1013,7 +1035,7 @@ static void walk_case(Run &r, WCount &wc, const WMode &m, const std::string &s)
 		char *e = (char *) malloc(s.size() ? s.size() : 1); memcpy(e, s.data(), s.size());
 		PathBox b(m.sep, m.assign); mpt::path *p = b.p();
 		r.hint("mpt_path_set");
-		LIB(mpt::mpt_path_set(p, e, (int) s.size())); ++r.transitions;
+		int cnt = LIB(mpt::mpt_path_set(p, e, (int) s.size())); ++r.transitions;
 		bool good = walk(*p, got, err);
 		bool as = asan_error();
 		// with an explicit length and no end character inside, NUL is an ordinary character
@@ -1022,6 +1044,7 @@ static void walk_case(Run &r, WCount &wc, const WMode &m, const std::string &s)
 		if (as) { fail("mpt_path_set", "asan", "explicit length: memory outside the given bytes is read"); goto out; }
 		if (!good) { fail("mpt_path_next", "wrong-components", "explicit length: " + err); goto out; }
 		if (got != want) { fail("mpt_path_next", "wrong-components", "explicit length: walks as " + comps_str(got) + ", expected " + comps_str(want)); goto out; }
+		if (cnt != (int) want.size()) { fail("mpt_path_set,explicit-length", "wrong-count", fmt("explicit length %zu: returns %d elements, walking visits %zu", s.size(), cnt, want.size())); goto out; }
 	}
 	// --- rebuild (an empty first element has no pending characters, hence no buffer to turn into an element)
 	{
@@ -1033,6 +1056,8 @@ static void walk_case(Run &r, WCount &wc, const WMode &m, const std::string &s)
 			rebuild(r, m, comps, cls, what);
 			ledger_reset(); asan_error();
 			rebuild(r, m, comps, cls, what, true);
+			ledger_reset(); asan_error();
+			rebuild(r, m, comps, cls, what, false, 0, true); r.count("rebuild:shared-copy");
 			// walk k elements, then rebuild the tail: delete the last element (k < n) and add another one, also when nothing is left
 			for (size_t k = 1; k <= comps.size(); ++k) { ledger_reset(); asan_error(); rebuild(r, m, comps, cls, what, false, k); r.count("rebuild:tail-after-next"); }
 			r.count(m.binary ? "rebuild:length-prefixed" : "rebuild:text");
@@ -1081,7 +1106,7 @@ void mc_explore(Run &r, const std::string &job)
 	if (job.compare(0, 5, "walk:") == 0) {
 		WCount wc = { 0, 0 };
 		r.require("nontrivial"); r.require("walk:multi,empty-elem"); r.require("walk:end-char-missing");
-		r.require("rebuild:text"); r.require("rebuild:length-prefixed"); r.require("rebuild:tail-after-next"); r.require("walk:length-prefixed,multi");
+		r.require("rebuild:text"); r.require("rebuild:length-prefixed"); r.require("rebuild:tail-after-next"); r.require("rebuild:shared-copy"); r.require("walk:length-prefixed,multi");
 		dfs(r, [&](Ctx &x) { walk_body(r, wc, job, x, 6); });
 		r.count("nontrivial", wc.nontrivial); r.count("walk:strings", wc.strings);
 		return;
